@@ -371,6 +371,16 @@ class CFG:
         r = self.reachable([self.entry], avoid_edges=bad)
         return target.id not in r
 
+    def only_after_normal_return(self, target_ast: ast.AST, call_ast: ast.AST) -> bool:
+        """True iff every copy of target (finally bodies are duplicated per exit kind) is reachable from entry only through a NORMAL out-edge of the statement holding call_ast:
+        the target never runs on a path on which that statement raised, and never without it."""
+        cn = self.node_of(call_ast)
+        normal = [(cn.id, y, lab) for (y, lab) in self.succ[cn.id] if self.normal_edge(cn.id, y, lab)]
+        if not normal:
+            return False
+        r = self.reachable([self.entry], avoid_edges=normal)
+        return not any(t.id in r for t in self.nodes_of(target_ast))
+
     def edge_targets(self, test: Node, label: str) -> list[Node]:
         return [self.nodes[y] for (y, lab) in self.succ[test.id] if lab == label]
 
